@@ -34,6 +34,8 @@ type ftCfg struct {
 	// ShortWrite > 0: the device accepts only that many bytes of a write and
 	// reports the short count without an error.
 	ShortWrite int `json:"short_write,omitempty"`
+	// NoDir: the efivars directory does not exist (a machine without a variable store)
+	NoDir bool `json:"no_dir,omitempty"`
 	// Clients > 1: the operations are issued by that many caller goroutines
 	// (each on its own variables) under the seeded scheduler; every
 	// filesystem call is a yield point.
@@ -105,8 +107,11 @@ func (v ValSpec) Bytes() []byte {
 		}
 		return b
 	case "bootentry":
-		raw := fixture("repo", "vars", "Boot0001-8be4df61-93ca-11d2-aa0d-00e098032b8c")
-		return raw[4:]
+		raw := append([]byte(nil), fixture("repo", "vars", "Boot0001-8be4df61-93ca-11d2-aa0d-00e098032b8c")[4:]...)
+		if v.Tag != 0 && len(raw) > 8 {
+			raw[6] = byte('A' + v.Tag%26) // first character of the description: entries are distinguishable
+		}
+		return raw
 	}
 	harnessf("unknown value kind %q", v.Kind)
 	return nil
@@ -217,6 +222,20 @@ func (e *fstraceEngine) gridCases() []ftCase {
 			out = append(out, ftCase{cfg: ftCfg{Dir: dir, Key: di}, ops: []ftOp{{Op: "write", API: "obj.WriteSignedUpdate", Var: VarSpec{Sym: n}, Val: vals[0]}}})
 			out = append(out, ftCase{cfg: ftCfg{Dir: dir, Key: di}, ops: []ftOp{{Op: "write", API: "obj.WriteSignedUpdate", Var: VarSpec{Sym: n, Attrs: uint32(predefinedVar(n).Attributes) | 0x40, AttrsSet: true}, Val: vals[0]}}})
 		}
+		// two different boot options one after the other (in both orders)
+		for _, pair := range [][2]string{{"Boot0001", "Boot0000"}, {"Boot0000", "Boot0001"}, {"Boot0010", "Boot0001"}} {
+			var ops []ftOp
+			for k, n := range pair {
+				ops = append(ops, ftOp{Op: "read", API: "typed.GetBootEntry", Var: VarSpec{Sym: "BootEntry", Name: n},
+					Stored: &StoredSpec{Mask: 0x7, Val: ValSpec{Kind: "bootentry", Tag: k + len(n) + int(n[7]-'0')}}})
+			}
+			out = append(out, ftCase{cfg: ftCfg{Dir: dir}, ops: ops})
+		}
+		// a machine without a variable store
+		for _, api := range []string{"obj.WriteVar", "legacy.WriteEfivarsWithGuid", "obj.WriteSignedUpdate"} {
+			out = append(out, ftCase{cfg: ftCfg{Dir: dir, NoDir: true}, ops: []ftOp{{Op: "write", API: api, Var: VarSpec{Sym: "Db"}, Val: vals[0]}}})
+		}
+		out = append(out, ftCase{cfg: ftCfg{Dir: dir, NoDir: true}, ops: []ftOp{{Op: "read", API: "obj.GetVar", Var: VarSpec{Sym: "Db"}}}})
 		for _, acc := range ftTyped {
 			req := uint32(acc.v().Attributes)
 			for _, m := range storedMasks(req) {
@@ -360,6 +379,9 @@ func (e *fstraceEngine) Gen(seed uint64, tier string, run int) *Trace {
 		mode := r.Intn(10)
 		if mode == 0 {
 			c.cfg.ShortWrite = r.Range(1, 6)
+		}
+		if mode == 3 && r.Chance(1, 3) {
+			c.cfg.NoDir = true
 		}
 		if mode == 1 || mode == 2 {
 			// interleaved callers, each on a variable of its own
@@ -547,7 +569,12 @@ func ftExec(c ftCfg, ops []ftOp, sw []Switch, x *X) {
 	fw := &fwModel{vars: map[string]*fwVar{}}
 	x.Logf("dir=%q chunks=%v", c.Dir, c.Chunks)
 	cleanDir := path.Clean(c.Dir)
-	mem.MkdirAll(cleanDir, 0o755)
+	if c.NoDir {
+		sfs.EnforceParents = true
+		x.Probe("efivars_directory_absent")
+	} else {
+		mem.MkdirAll(cleanDir, 0o755)
+	}
 
 	runOp := func(i int, op ftOp) {
 		v := op.Var.Var()
@@ -655,6 +682,22 @@ func ftWrite(x *X, i int, op ftOp, v efivar.Efivar, p string, c ftCfg, obj *efiv
 		return
 	}
 	evs := sfs.Since(start, ftTagOf(i))
+	if c.NoDir {
+		// no variable store: the write cannot succeed, and the library must not create one
+		for _, ev := range evs {
+			if ev.Call == cOpenFile && ev.Err != "" {
+				continue // the refused open itself
+			}
+			if ev.mutating() {
+				x.Fail("fstrace.touches_nothing_else", i, kind, "the efivars directory does not exist and the library issued %s", ev.String())
+				return
+			}
+		}
+		if err == nil {
+			x.Fail("fstrace.write_succeeds", i, kind, "write into a missing efivars directory reported success")
+		}
+		return
+	}
 	if c.ShortWrite > 0 {
 		// the device took only part of the buffer: whatever the library reports, it must not issue a second write
 		nw := 0
@@ -801,7 +844,7 @@ func ftWrite(x *X, i int, op ftOp, v efivar.Efivar, p string, c ftCfg, obj *efiv
 
 func ftRead(x *X, i int, op ftOp, v efivar.Efivar, p string, obj *efivarfs.Efivarfs, sfs *SimFs, mem afero.Fs, fw *fwModel) {
 	kind := "read:" + op.API
-	if st := op.Stored; st != nil {
+	if st := op.Stored; st != nil && !(sfs.EnforceParents) {
 		switch {
 		case st.Absent:
 			delete(fw.vars, p)
@@ -854,6 +897,7 @@ func ftRead(x *X, i int, op ftOp, v efivar.Efivar, p string, obj *efivarfs.Efiva
 				gotVal, hasVal = b.Bytes(), true
 			}
 		default:
+			ftBootName = v.Name
 			typed, err = ftTypedRead(obj, op.API)
 		}
 	}()
@@ -867,6 +911,10 @@ func ftRead(x *X, i int, op ftOp, v efivar.Efivar, p string, obj *efivarfs.Efiva
 	for _, ev := range sfs.Since(start, ftTagOf(i)) {
 		if ev.mutating() {
 			x.Fail("fstrace.touches_nothing_else", i, kind, "read issued a mutating call %s", ev.String())
+			return
+		}
+		if (ev.Call == cOpen || ev.Call == cOpenFile) && path.Clean(ev.Path) != p {
+			x.Fail("fstrace.path", i, kind, "read opened %q, the contract names %q", ev.Path, p)
 			return
 		}
 	}
@@ -946,6 +994,9 @@ func ftRead(x *X, i int, op ftOp, v efivar.Efivar, p string, obj *efivarfs.Efiva
 	}
 }
 
+// ftBootName is the boot option the next typed.GetBootEntry read asks for.
+var ftBootName = "Boot0001"
+
 func ftTypedRead(obj *efivarfs.Efivarfs, api string) (string, error) {
 	dbs := func(db *signature.SignatureDatabase, err error) (string, error) {
 		if err != nil {
@@ -978,7 +1029,7 @@ func ftTypedRead(obj *efivarfs.Efivarfs, api string) (string, error) {
 		}
 		return fmt.Sprint([]string(bo)), nil
 	case "GetBootEntry":
-		en, err := obj.GetBootEntry("Boot0001")
+		en, err := obj.GetBootEntry(ftBootName)
 		if err != nil {
 			return "", err
 		}
